@@ -160,6 +160,8 @@ def run(ctx):
     # R4
     c02.r4(ctx, 'R4', only_page=True)
     r7_order_agreement(ctx)
+    from rules import atoms
+    atoms.chain_with_tip(ctx, 'R2')
     # the unstable source resumes at the offset inclusively and filters spent outputs (shared with
     # C01.R8); the stable source is read through the accessor that masks a partially ingested block
     # whatever the offset is (shared with C08.R1b) — a page may be requested between two slices
